@@ -66,3 +66,6 @@ End Sched.
 (* the library owns no writable static storage: nothing outside the caller's eav_t / result record is written *)
 Lemma no_mutable_globals : GenGlobals.mutable_globals = [].
 Proof. reflexivity. Qed.
+(* nor does it call a libc function that keeps hidden static state (strtok, rand, localtime, ...): what a race detector cannot see *)
+Lemma no_unsafe_libc_calls : GenGlobals.unsafe_libc_calls = [].
+Proof. reflexivity. Qed.
